@@ -45,19 +45,25 @@ Record state := mkSt {
   s2c : list (nat * outcome);         (* reply frames in flight server -> client *)
   log : list nat;                     (* execution log (method body entered) *)
   registered : bool; running : bool; shutdown : bool; phase : wphase;
-  srv_router : bool; srv_open : bool;
-  cli_router : bool; cli_open : bool; cli_loop : bool; swept : bool
+  srv_router : bool; srv_peer : bool; srv_open : bool; srv_loop : bool;
+  cli_router : bool; cli_peer : bool; cli_open : bool; cli_loop : bool; swept : bool
 }.
 
 Definition init : state :=
-  mkSt 0 [] [] [] [] [] [] [] None None [] [] [] true true false Serving true true true true true false.
+  mkSt 0 [] [] [] [] [] [] [] None None [] [] [] true true false Serving true true true true true true true true false.
 
+Inductive sendres := Sent | SentError | Dropped.
+
+(* Labels carry what the real code was observed to do at that step (accepted / refused, sent /
+   dropped); the guards of [step] say in which states each observation is possible. *)
 Inductive label :=
-| LIssue (r : nat) | LHandoff (r : nat) | LSockSend (r : nat) | LNetC2S (r : nat)
-| LPop | LExec | LReply | LSrvSend (r : nat) | LNetS2C (r : nat)
-| LUnregister | LStopFlag | LShutdown | LReject | LWorkerExit
-| LSrvClose | LCliEof | LCliClose | LSrvEof
-| LSrvRouterStop | LCliRouterOff | LCliLoopStop | LCliSweep.
+| LIssue (r : nat) (ok : bool) | LHandoff (r : nat) (ok : bool) | LSockSend (r : nat) (ok : bool)
+| LNetC2S (r : nat) (ok : bool)
+| LPop | LExec | LReply (ok : bool) | LReject (ok : bool)
+| LSrvSend (r : nat) (res : sendres) | LNetS2C (r : nat)
+| LUnregister | LStopFlag | LShutdown | LWorkerExit
+| LSrvPeerGone | LSrvClose | LCliPeerGone | LCliClose | LCliEof | LSrvEof
+| LSrvRouterOff | LSrvLoopStop | LCliRouterOff | LCliLoopStop | LCliSweep.
 
 (* ---- small helpers -------------------------------------------------------------------------- *)
 Definition has_out (s : state) (r : nat) : bool := existsb (fun p => Nat.eqb (fst p) r) (out s).
@@ -74,101 +80,112 @@ Section Step.
   Variable fx : bool.
   Variable info : nat -> rinfo.
 
-  (* record update helpers (one per field that changes) *)
-  Definition upd (s : state)
-    (f : state -> state) : state := f s.
-
   Definition with_out s v := mkSt (nxt s) v (handoff s) (sockq s) (lost s) (c2s s) (pend s) (fifo s) (cur s)
     (replying s) (srvq s) (s2c s) (log s) (registered s) (running s) (shutdown s) (phase s) (srv_router s)
-    (srv_open s) (cli_router s) (cli_open s) (cli_loop s) (swept s).
+    (srv_peer s) (srv_open s) (srv_loop s) (cli_router s) (cli_peer s) (cli_open s) (cli_loop s) (swept s).
   Definition with_handoff s v := mkSt (nxt s) (out s) v (sockq s) (lost s) (c2s s) (pend s) (fifo s) (cur s)
     (replying s) (srvq s) (s2c s) (log s) (registered s) (running s) (shutdown s) (phase s) (srv_router s)
-    (srv_open s) (cli_router s) (cli_open s) (cli_loop s) (swept s).
+    (srv_peer s) (srv_open s) (srv_loop s) (cli_router s) (cli_peer s) (cli_open s) (cli_loop s) (swept s).
   Definition with_sockq s v := mkSt (nxt s) (out s) (handoff s) v (lost s) (c2s s) (pend s) (fifo s) (cur s)
     (replying s) (srvq s) (s2c s) (log s) (registered s) (running s) (shutdown s) (phase s) (srv_router s)
-    (srv_open s) (cli_router s) (cli_open s) (cli_loop s) (swept s).
+    (srv_peer s) (srv_open s) (srv_loop s) (cli_router s) (cli_peer s) (cli_open s) (cli_loop s) (swept s).
   Definition with_lost s v := mkSt (nxt s) (out s) (handoff s) (sockq s) v (c2s s) (pend s) (fifo s) (cur s)
     (replying s) (srvq s) (s2c s) (log s) (registered s) (running s) (shutdown s) (phase s) (srv_router s)
-    (srv_open s) (cli_router s) (cli_open s) (cli_loop s) (swept s).
+    (srv_peer s) (srv_open s) (srv_loop s) (cli_router s) (cli_peer s) (cli_open s) (cli_loop s) (swept s).
   Definition with_c2s s v := mkSt (nxt s) (out s) (handoff s) (sockq s) (lost s) v (pend s) (fifo s) (cur s)
     (replying s) (srvq s) (s2c s) (log s) (registered s) (running s) (shutdown s) (phase s) (srv_router s)
-    (srv_open s) (cli_router s) (cli_open s) (cli_loop s) (swept s).
+    (srv_peer s) (srv_open s) (srv_loop s) (cli_router s) (cli_peer s) (cli_open s) (cli_loop s) (swept s).
   Definition with_pend s v := mkSt (nxt s) (out s) (handoff s) (sockq s) (lost s) (c2s s) v (fifo s) (cur s)
     (replying s) (srvq s) (s2c s) (log s) (registered s) (running s) (shutdown s) (phase s) (srv_router s)
-    (srv_open s) (cli_router s) (cli_open s) (cli_loop s) (swept s).
+    (srv_peer s) (srv_open s) (srv_loop s) (cli_router s) (cli_peer s) (cli_open s) (cli_loop s) (swept s).
   Definition with_fifo s v := mkSt (nxt s) (out s) (handoff s) (sockq s) (lost s) (c2s s) (pend s) v (cur s)
     (replying s) (srvq s) (s2c s) (log s) (registered s) (running s) (shutdown s) (phase s) (srv_router s)
-    (srv_open s) (cli_router s) (cli_open s) (cli_loop s) (swept s).
+    (srv_peer s) (srv_open s) (srv_loop s) (cli_router s) (cli_peer s) (cli_open s) (cli_loop s) (swept s).
   Definition with_cur s v := mkSt (nxt s) (out s) (handoff s) (sockq s) (lost s) (c2s s) (pend s) (fifo s) v
     (replying s) (srvq s) (s2c s) (log s) (registered s) (running s) (shutdown s) (phase s) (srv_router s)
-    (srv_open s) (cli_router s) (cli_open s) (cli_loop s) (swept s).
+    (srv_peer s) (srv_open s) (srv_loop s) (cli_router s) (cli_peer s) (cli_open s) (cli_loop s) (swept s).
   Definition with_replying s v := mkSt (nxt s) (out s) (handoff s) (sockq s) (lost s) (c2s s) (pend s) (fifo s) (cur s)
     v (srvq s) (s2c s) (log s) (registered s) (running s) (shutdown s) (phase s) (srv_router s)
-    (srv_open s) (cli_router s) (cli_open s) (cli_loop s) (swept s).
+    (srv_peer s) (srv_open s) (srv_loop s) (cli_router s) (cli_peer s) (cli_open s) (cli_loop s) (swept s).
   Definition with_srvq s v := mkSt (nxt s) (out s) (handoff s) (sockq s) (lost s) (c2s s) (pend s) (fifo s) (cur s)
     (replying s) v (s2c s) (log s) (registered s) (running s) (shutdown s) (phase s) (srv_router s)
-    (srv_open s) (cli_router s) (cli_open s) (cli_loop s) (swept s).
+    (srv_peer s) (srv_open s) (srv_loop s) (cli_router s) (cli_peer s) (cli_open s) (cli_loop s) (swept s).
   Definition with_s2c s v := mkSt (nxt s) (out s) (handoff s) (sockq s) (lost s) (c2s s) (pend s) (fifo s) (cur s)
     (replying s) (srvq s) v (log s) (registered s) (running s) (shutdown s) (phase s) (srv_router s)
-    (srv_open s) (cli_router s) (cli_open s) (cli_loop s) (swept s).
+    (srv_peer s) (srv_open s) (srv_loop s) (cli_router s) (cli_peer s) (cli_open s) (cli_loop s) (swept s).
   Definition with_log s v := mkSt (nxt s) (out s) (handoff s) (sockq s) (lost s) (c2s s) (pend s) (fifo s) (cur s)
     (replying s) (srvq s) (s2c s) v (registered s) (running s) (shutdown s) (phase s) (srv_router s)
-    (srv_open s) (cli_router s) (cli_open s) (cli_loop s) (swept s).
+    (srv_peer s) (srv_open s) (srv_loop s) (cli_router s) (cli_peer s) (cli_open s) (cli_loop s) (swept s).
   Definition with_nxt s v := mkSt v (out s) (handoff s) (sockq s) (lost s) (c2s s) (pend s) (fifo s) (cur s)
     (replying s) (srvq s) (s2c s) (log s) (registered s) (running s) (shutdown s) (phase s) (srv_router s)
-    (srv_open s) (cli_router s) (cli_open s) (cli_loop s) (swept s).
-  Definition with_flags s rg rn sh ph sr so cr co cl sw :=
+    (srv_peer s) (srv_open s) (srv_loop s) (cli_router s) (cli_peer s) (cli_open s) (cli_loop s) (swept s).
+  Definition with_obj s rg rn sh ph :=
     mkSt (nxt s) (out s) (handoff s) (sockq s) (lost s) (c2s s) (pend s) (fifo s) (cur s)
-    (replying s) (srvq s) (s2c s) (log s) rg rn sh ph sr so cr co cl sw.
+    (replying s) (srvq s) (s2c s) (log s) rg rn sh ph (srv_router s) (srv_peer s) (srv_open s) (srv_loop s)
+    (cli_router s) (cli_peer s) (cli_open s) (cli_loop s) (swept s).
+  Definition with_srv s sr sp so sl :=
+    mkSt (nxt s) (out s) (handoff s) (sockq s) (lost s) (c2s s) (pend s) (fifo s) (cur s)
+    (replying s) (srvq s) (s2c s) (log s) (registered s) (running s) (shutdown s) (phase s) sr sp so sl
+    (cli_router s) (cli_peer s) (cli_open s) (cli_loop s) (swept s).
+  Definition with_cli s cr cp co cl sw :=
+    mkSt (nxt s) (out s) (handoff s) (sockq s) (lost s) (c2s s) (pend s) (fifo s) (cur s)
+    (replying s) (srvq s) (s2c s) (log s) (registered s) (running s) (shutdown s) (phase s)
+    (srv_router s) (srv_peer s) (srv_open s) (srv_loop s) cr cp co cl sw.
 
   Definition fail (s : state) (r : nat) : state := with_out s (set_out (out s) r ODeliveryError).
 
-  (* the error reply of the worker / of _reject_remaining_requests / a normal reply *)
-  Definition send_reply (s : state) (r : nat) (o : outcome) : state :=
+  (* can the reply (r, o) be pickled?  error replies and "locked" replies always can *)
+  Definition picklable (r : nat) (o : outcome) : bool :=
+    match o with ODeliveryError | OLocked => true | _ => ser_res (info r) end.
+
+  Definition srv_can_send (s : state) : bool := srv_router s && srv_peer s && srv_loop s.
+
+  (* the worker sends a reply (normal, or the error reply of _reject_remaining_requests) *)
+  Definition send_reply (s : state) (r : nat) (o : outcome) (ok : bool) : option state :=
     if remote (info r) then
-      if srv_router s && srv_open s then with_srvq s (srvq s ++ [(r, o)])
-      else s                                   (* message router inactive: logged and dropped *)
-    else with_out s (set_out (out s) r o).     (* local delivery to the future *)
+      if ok then (if srv_can_send s then Some (with_srvq s (srvq s ++ [(r, o)])) else None)
+      else (if srv_can_send s then None else Some s)      (* router inactive / peer gone: logged and dropped *)
+    else Some (with_out s (set_out (out s) r o)).          (* local delivery to the future *)
 
   Definition step (s : state) (l : label) : option state :=
     match l with
-    | LIssue r =>
+    | LIssue r ok =>
         if Nat.eqb r (nxt s) && forallb (fun x => negb (Nat.eqb (caller (info x)) (caller (info r)))) (handoff s) then
           let s := with_nxt s (S (nxt s)) in
           if remote (info r) then
-            if cli_router s && cli_open s then Some (with_handoff s (handoff s ++ [r]))
-            else Some (fail s r)
+            if ok then (if cli_router s && cli_peer s then Some (with_handoff s (handoff s ++ [r])) else None)
+            else (if cli_router s && cli_peer s then None else Some (fail s r))
           else
-            if registered s && running s then Some (with_fifo s (fifo s ++ [r]))
-            else Some (fail s r)
+            if ok then (if running s then Some (with_fifo s (fifo s ++ [r])) else None)
+            else (if registered s && running s then None else Some (fail s r))
         else None
-    | LHandoff r =>
-        if mem_nat r (handoff s) then
+    | LHandoff r ok =>
+        if mem_nat r (handoff s) && Bool.eqb ok (cli_loop s) then
           let s := with_handoff s (remove_nat r (handoff s)) in
-          if cli_loop s then Some (with_sockq s (sockq s ++ [r]))
-          else Some (with_lost s (lost s ++ [r]))
+          if ok then Some (with_sockq s (sockq s ++ [r])) else Some (with_lost s (lost s ++ [r]))
         else None
-    | LSockSend r =>
+    | LSockSend r ok =>
         match sockq s with
         | x :: rest =>
             if Nat.eqb x r && cli_loop s then
               let s := with_sockq s rest in
-              if cli_open s then
-                if ser_req (info r) then
-                  if srv_open s then Some (with_pend (with_c2s s (c2s s ++ [r])) (pend s ++ [r]))
-                  else Some (fail s r)                       (* sendall on a closed connection: OSError *)
-                else if fx then Some (fail s r) else Some (with_lost s (lost s ++ [r]))
-              else Some (fail s r)                           (* unknown destination context *)
+              let can := cli_peer s && ser_req (info r) && srv_open s in
+              if ok then (if can then Some (with_pend (with_c2s s (c2s s ++ [r])) (pend s ++ [r])) else None)
+              else if can then None
+              else if negb fx && cli_peer s && negb (ser_req (info r)) then Some (with_lost s (lost s ++ [r]))
+              else Some (fail s r)
             else None
         | [] => None
         end
-    | LNetC2S r =>
+    | LNetC2S r ok =>
         match c2s s with
         | x :: rest =>
             if Nat.eqb x r && srv_open s then
               let s := with_c2s s rest in
-              if registered s && running s then Some (with_fifo s (fifo s ++ [r]))
-              else Some (with_s2c s (s2c s ++ [(r, ODeliveryError)]))      (* send_error_reply *)
+              if ok then (if running s then Some (with_fifo s (fifo s ++ [r])) else None)
+              else if registered s && running s then None
+              else if cli_open s then Some (with_s2c s (s2c s ++ [(r, ODeliveryError)]))    (* send_error_reply *)
+              else Some s
             else None
         | [] => None
         end
@@ -183,20 +200,29 @@ Section Step.
         | Some r => Some (with_replying (with_cur (with_log s (log s ++ [r])) None) (Some (r, body (info r))))
         | None => None
         end
-    | LReply =>
+    | LReply ok =>
         match replying s with
-        | Some (r, o) => Some (send_reply (with_replying s None) r o)
+        | Some (r, o) => send_reply (with_replying s None) r o ok
         | None => None
         end
-    | LSrvSend r =>
+    | LReject ok =>
+        match phase s, cur s, replying s, fifo s with
+        | Serving, None, None, r :: rest =>
+            if shutdown s then send_reply (with_fifo s rest) r ODeliveryError ok else None
+        | _, _, _, _ => None
+        end
+    | LSrvSend r res =>
         match srvq s with
         | (x, o) :: rest =>
-            if Nat.eqb x r && srv_router s then
+            if Nat.eqb x r && srv_loop s then
               let s := with_srvq s rest in
-              if srv_open s then
-                if ser_res (info r) then Some (with_s2c s (s2c s ++ [(r, o)]))
-                else if fx then Some (with_s2c s (s2c s ++ [(r, ODeliveryError)])) else Some s
-              else Some s
+              let link := srv_peer s && cli_open s in
+              match res with
+              | Sent => if link && picklable r o then Some (with_s2c s (s2c s ++ [(r, o)])) else None
+              | SentError => if link && negb (picklable r o) && fx
+                             then Some (with_s2c s (s2c s ++ [(r, ODeliveryError)])) else None
+              | Dropped => if link && (picklable r o || fx) then None else Some s
+              end
             else None
         | [] => None
         end
@@ -209,78 +235,61 @@ Section Step.
             else None
         | [] => None
         end
-    | LUnregister => Some (with_flags s false (running s) (shutdown s) (phase s) (srv_router s) (srv_open s)
-                                      (cli_router s) (cli_open s) (cli_loop s) (swept s))
-    | LStopFlag => Some (with_flags s (registered s) false (shutdown s) (phase s) (srv_router s) (srv_open s)
-                                    (cli_router s) (cli_open s) (cli_loop s) (swept s))
-    | LShutdown =>
-        if running s then None
-        else Some (with_flags s (registered s) (running s) true (phase s) (srv_router s) (srv_open s)
-                              (cli_router s) (cli_open s) (cli_loop s) (swept s))
-    | LReject =>
-        match phase s, cur s, replying s, fifo s with
-        | Serving, None, None, r :: rest =>
-            if shutdown s then Some (send_reply (with_fifo s rest) r ODeliveryError) else None
-        | _, _, _, _ => None
-        end
+    | LUnregister => Some (with_obj s false (running s) (shutdown s) (phase s))
+    | LStopFlag => Some (with_obj s (registered s) false (shutdown s) (phase s))
+    | LShutdown => if running s then None else Some (with_obj s (registered s) (running s) true (phase s))
     | LWorkerExit =>
         match phase s, cur s, replying s, fifo s with
         | Serving, None, None, [] =>
-            if shutdown s then Some (with_flags s (registered s) (running s) (shutdown s) Gone (srv_router s)
-                                                (srv_open s) (cli_router s) (cli_open s) (cli_loop s) (swept s))
-            else None
+            if shutdown s then Some (with_obj s (registered s) (running s) (shutdown s) Gone) else None
         | _, _, _, _ => None
         end
+    | LSrvPeerGone => if srv_peer s then Some (with_srv s (srv_router s) false (srv_open s) (srv_loop s)) else None
     | LSrvClose =>
-        if srv_open s then
-          Some (with_c2s (with_flags s (registered s) (running s) (shutdown s) (phase s) (srv_router s) false
-                                     (cli_router s) (cli_open s) (cli_loop s) (swept s)) [])
+        if srv_open s && negb (srv_peer s) then
+          Some (with_c2s (with_srv s (srv_router s) (srv_peer s) false (srv_loop s)) [])
+        else None
+    | LCliPeerGone =>
+        if cli_peer s then Some (with_cli s (cli_router s) false (cli_open s) (cli_loop s) (swept s)) else None
+    | LCliClose =>
+        if cli_open s && negb (cli_peer s) then
+          Some (with_s2c (with_pend (with_out (with_cli s (cli_router s) (cli_peer s) false (cli_loop s) (swept s))
+                                              (set_out_all (out s) (pend s) ODeliveryError)) []) [])
         else None
     | LCliEof =>
+        (* the client reads end-of-stream: it drops the peer and closes in one go *)
         match s2c s with
         | [] => if cli_open s && negb (srv_open s) then
-                  Some (with_pend (with_out (with_flags s (registered s) (running s) (shutdown s) (phase s)
-                                               (srv_router s) (srv_open s) (cli_router s) false (cli_loop s) (swept s))
+                  Some (with_pend (with_out (with_cli s (cli_router s) false false (cli_loop s) (swept s))
                                             (set_out_all (out s) (pend s) ODeliveryError)) [])
                 else None
         | _ => None
         end
-    | LCliClose =>
-        if cli_open s then
-          Some (with_s2c (with_pend (with_out (with_flags s (registered s) (running s) (shutdown s) (phase s)
-                                                 (srv_router s) (srv_open s) (cli_router s) false (cli_loop s) (swept s))
-                                              (set_out_all (out s) (pend s) ODeliveryError)) []) [])
-        else None
     | LSrvEof =>
         match c2s s with
         | [] => if srv_open s && negb (cli_open s) then
-                  Some (with_flags s (registered s) (running s) (shutdown s) (phase s) (srv_router s) false
-                                   (cli_router s) (cli_open s) (cli_loop s) (swept s))
+                  Some (with_srv s (srv_router s) false false (srv_loop s))
                 else None
         | _ => None
         end
-    | LSrvRouterStop =>
-        if srv_router s && negb (srv_open s) then
-          Some (with_srvq (with_flags s (registered s) (running s) (shutdown s) (phase s) false (srv_open s)
-                                      (cli_router s) (cli_open s) (cli_loop s) (swept s)) [])
+    | LSrvRouterOff =>
+        if srv_router s then Some (with_srv s false (srv_peer s) (srv_open s) (srv_loop s)) else None
+    | LSrvLoopStop =>
+        if srv_loop s && negb (srv_router s) && negb (srv_open s) then
+          Some (with_srvq (with_srv s (srv_router s) (srv_peer s) (srv_open s) false) [])
         else None
     | LCliRouterOff =>
-        if cli_router s then
-          Some (with_flags s (registered s) (running s) (shutdown s) (phase s) (srv_router s) (srv_open s)
-                           false (cli_open s) (cli_loop s) (swept s))
-        else None
+        if cli_router s then Some (with_cli s false (cli_peer s) (cli_open s) (cli_loop s) (swept s)) else None
     | LCliLoopStop =>
         if cli_loop s && negb (cli_router s) && negb (cli_open s) then
-          Some (with_lost (with_sockq (with_flags s (registered s) (running s) (shutdown s) (phase s) (srv_router s)
-                                                  (srv_open s) (cli_router s) (cli_open s) false (swept s)) [])
+          Some (with_lost (with_sockq (with_cli s (cli_router s) (cli_peer s) (cli_open s) false (swept s)) [])
                           (lost s ++ sockq s))
         else None
     | LCliSweep =>
         (* end of QMI_Context.stop() of the client (repaired tree): every future of that context
            that still has no result gets a delivery error *)
         if fx && negb (cli_loop s) && negb (swept s) then
-          Some (with_lost (with_out (with_flags s (registered s) (running s) (shutdown s) (phase s) (srv_router s)
-                                                (srv_open s) (cli_router s) (cli_open s) (cli_loop s) true)
+          Some (with_lost (with_out (with_cli s (cli_router s) (cli_peer s) (cli_open s) (cli_loop s) true)
                                     (set_out_all (out s) (lost s ++ handoff s) ODeliveryError)) [])
         else None
     end.
